@@ -33,7 +33,7 @@ CHECKS = {
               "cut inside the last frame (crash points), after which Handle must return, no goroutine may remain and every "
               "File must have been closed exactly once."),
         ref="DESIGN.md section 5 C05",
-        technique="TLC model checking of Session.tla + replay with counting puppet backend + stream cuts"),
+        technique="TLC model checking of Session.tla (incl. clone probes) and of Lifetime.tla (reference counting under schedules, deadlock check) + replay with counting puppet backend + stream cuts + gated-schedule conformance (lifesched)"),
     "C08": dict(
         engine="session",
         category="model_checking",
@@ -78,7 +78,7 @@ CHECKS["C06"] = dict(
           "run against the real server with gated backend calls and its observations must be a path of TLC's graph; batches "
           "of 64 concurrent replies check contiguity under the real scheduler."),
     ref="DESIGN.md section 5 C06, section 3.6",
-    technique="TLC model checking of ConnLoop.tla (safety + liveness) + big-step conformance of gated schedules + concurrent batches")
+    technique="TLC model checking of ConnLoop.tla (safety + liveness) + big-step conformance of gated schedules (incl. Close held, read/write-class mixes) + concurrent batches")
 CHECKS["C14"] = dict(
     engine="connloop", category="model_checking", note=CONN_NOTE,
     text=("TLC checks FlushAfterStop on ConnLoop.tla (an Rflush is on the wire only when every request that was executing "
@@ -102,7 +102,7 @@ CHECKS["C07"] = dict(
           "recorded enter/exit log against Trace_Overlap.tla: any pair inside the backend at once that the contract forbids "
           "is a violation. Schedule-quantified, so forced rendezvous + model checking is the right level."),
     ref="DESIGN.md section 5 C07, section 3.7, section 4 B3/B4",
-    technique="TLC model checking of PathLocks.tla + forced pairwise rendezvous + TLC trace validation (Trace_Overlap.tla)")
+    technique="TLC model checking of PathLocks.tla and NodeFor.tla + forced pairwise rendezvous (incl. same-fid and racy-setup cells) + TLC trace validation (Trace_Overlap.tla)")
 
 CHECKS["C16"] = dict(
     engine="concurrency", category="model_checking",
@@ -116,7 +116,7 @@ CHECKS["C16"] = dict(
           "backend log validated by TLC; isolation: Session.tla histories replayed concurrently as independent clients on one "
           "server, each compared with its own history; thorough: the same under the race detector."),
     ref="DESIGN.md section 5 C16",
-    technique="TLC model checking (PathLocks/ConnLoop progress) + concurrent model-history replay + random workloads with TLC-validated logs + race detector")
+    technique="TLC model checking (PathLocks/ConnLoop progress, Lifetime.tla deadlock check) + concurrent model-history replay + random workloads with TLC-validated logs + gated-schedule conformance (lifesched) + race detector")
 
 CHECKS["C10"] = dict(
     engine="client", category="model_checking",
@@ -130,7 +130,7 @@ CHECKS["C10"] = dict(
           "the bounded configurations is executed against the real p9.Client with a scripted server and its observations "
           "(per caller: blocked / error / success with WHICH reply) must be a path of TLC's graph."),
     ref="DESIGN.md section 5 C10, section 3.8",
-    technique="TLC model checking of Client.tla + big-step conformance of scripted-server schedules against p9.Client")
+    technique="TLC model checking of Client.tla and FidPool.tla + big-step conformance of scripted-server schedules and replay of all fid-allocation histories against p9.Client")
 
 VEC_NOTE = ("Trusted base: TLC as evaluator of the tables of spec/Version.tla (their ASSUMEs: canonical spelling parses back, "
             "replies within 4 MiB, size arithmetic) and the meaning table of the version tokens; the layout-table codec. "
@@ -149,7 +149,7 @@ CHECKS["C13"] = dict(
           "inequalities over the msize grid and enumerates 1404 (msize, count, read|readdir, re-negotiation) vectors; each is "
           "replayed against p9.Server with a backend that always has enough data: no reply frame may exceed the announced "
           "msize and the connection must stay usable; the client vectors check request/reply sizing against a lowered msize."),
-    ref="DESIGN.md section 5 C13", technique="TLC-evaluated size arithmetic (Version.tla) + exhaustive vector replay")
+    ref="DESIGN.md section 5 C13", technique="TLC-evaluated size arithmetic (Version.tla, incl. directory-fit sweep) + exhaustive vector replay")
 
 CHECKS["C11"] = dict(
     engine="chunk", category="model_checking",
@@ -195,7 +195,7 @@ CHECKS["C02"] = dict(
           "(a receiver that waits for more input shows as a missing reply; a server panic is a finding), and the size check "
           "Accept(size, msize) is replayed against p9.Client as receiver."),
     ref="DESIGN.md section 5 C02, section 3.2",
-    technique="TLC enumeration of frame streams (Frames.tla) + byte-level replay into Server.Handle / p9.Client with consumption counting")
+    technique="TLC enumeration of frame streams (Frames.tla) + byte-level replay into Server.Handle / p9.Client with consumption counting + sweep of every request type x every body prefix")
 
 CHECKS["C17"] = dict(
     engine="segments", category="model_checking",
@@ -219,7 +219,7 @@ CHECKS["C18"] = dict(
           "an alphabet of its own, so that any element, string byte or payload byte from an earlier message is recognised at the "
           "backend or in the reply; lazy backend reads expose un-cleared read buffers."),
     ref="DESIGN.md section 5 C18, section 3.9",
-    technique="TLC enumeration of message histories (MsgCache.tla) + replay with per-request alphabets on two connections")
+    technique="TLC enumeration of message histories (MsgCache.tla) and of read-buffer interleavings (ReadBuf.tla) + replay with per-request alphabets on two connections, stalled-transport batches and short frames")
 
 CHECKS["C19"] = dict(
     engine="listing", category="model_checking",
